@@ -367,7 +367,9 @@ class Rule(NamedBox):
 
     @staticmethod
     def param_repr(p):
-        if isinstance(p, int | float) or (isinstance(p, str) and p.isalnum()):
+        # NOTE: a bare word reads back as a string, but bare digits or True/False/None do not
+        isword = isinstance(p, str) and p.isidentifier() and p not in {'True', 'False', 'None'}
+        if (isinstance(p, int | float) and not isinstance(p, bool)) or isword:
             return str(p)
         else:
             return repr(p)
@@ -720,7 +722,10 @@ class Grammar(Model):
         directives = ''
         # noinspection PyUnresolvedReferences
         for name, value in self.directives.items():
-            if name in regex_directives:
+            if name in regex_directives and value is None:
+                # NOTE: what an empty regex is read as
+                directives += f'@@{name} :: //\n'
+            elif name in regex_directives:
                 if '/' in value:
                     directives += f'@@{name} :: ?"{value}"\n'
                 else:
